@@ -19,12 +19,13 @@ import (
 
 // C06 — Compile is total: no panic, crash or hang; exactly one of (expr, error).
 
-const ruleC06 = "rapid: valid expression text from all fragments (incl. unconstrained ones) or token soup, then 0-3 mutations, byte-level (delete / duplicate a range, flip a byte, insert a token from a dictionary) or token-level (delete / duplicate / swap lexical words of XPath tokens, quotes, brackets, NUL, invalid UTF-8, multi-byte names) x namespace configuration (Compile; CompileWithNS with nil, empty, binding and non-binding maps). mixed: alternations of two constructs (predicate/function, predicate/arithmetic, parenthesis/union, sequence/predicate/function ...) at depths 2..198, whose compile cost must stay polynomial; deep: every recursive construct of the grammar ('(', 'a[', 'f(', 'a/(', 'a/(b,', '-', 'a/', 'a//', '[1]', '1+', 'a|', 'or', '=', alternations of two) nested to depth 10^2..10^5 under an 8 MB maximum stack (quick) or ..3*10^6 under the default 1 GB stack (thorough), closed and unclosed, each journalled before it runs so that a dying process is attributed. thorough also: native go fuzzing of the same oracle. Oracle: Compile/CompileWithNS return exactly one of (non-nil expr, non-nil error); no panic escapes; the process survives; MustCompile returns a usable non-nil expression; a returned expression answers String() with the input; every call returns within a generous wall-clock margin (re-tried once in isolation). Non-trivial: the input was mutated, or is soup, or is a depth case; distinct by input bytes + namespace configuration."
+const ruleC06 = "rapid: valid expression text from all fragments (incl. unconstrained ones) or token soup, then 0-3 mutations, byte-level (delete / duplicate a range, flip a byte, insert a token from a dictionary) or token-level (delete / duplicate / swap lexical words of XPath tokens, quotes, brackets, NUL, invalid UTF-8, multi-byte names) x namespace configuration (Compile; CompileWithNS with nil, empty, binding and non-binding maps). mixed: alternations of two constructs (predicate/function, predicate/arithmetic, parenthesis/union, sequence/predicate/function ...) at depths 2..198, whose compile cost must stay polynomial; two-phase: N completed sibling constructs followed by a construct nested N+250 deep (N up to 10^5 quick / 1.5*10^6 thorough) for 7 prefix x 5 nesting constructs; deep: every recursive construct of the grammar ('(', 'a[', 'f(', 'a/(', 'a/(b,', '-', 'a/', 'a//', '[1]', '1+', 'a|', 'or', '=', alternations of two) nested to depth 10^2..10^5 under an 8 MB maximum stack (quick) or ..3*10^6 under the default 1 GB stack (thorough), closed and unclosed, each journalled before it runs so that a dying process is attributed. thorough also: native go fuzzing of the same oracle. Oracle: Compile/CompileWithNS return exactly one of (non-nil expr, non-nil error); no panic escapes; the process survives; MustCompile returns a usable non-nil expression; a returned expression answers String() with the input; every call returns within a generous wall-clock margin (re-tried once in isolation). Non-trivial: the input was mutated, or is soup, or is a depth case; distinct by input bytes + namespace configuration."
 
 var (
 	uC06Rapid = harness.NewUnit("C06", "rapid-mutated-inputs", ruleC06)
 	uC06Deep  = harness.NewUnit("C06", "enum-deep-nesting", ruleC06)
 	uC06Mixed = harness.NewUnit("C06", "enum-mixed-nesting", ruleC06)
+	uC06Two   = harness.NewUnit("C06", "enum-two-phase-nesting", ruleC06)
 )
 
 func init() {
@@ -32,6 +33,26 @@ func init() {
 		in := inputOf(l)
 		_, f := checkCompileTotal(in, l.HasNS, l.NSMap)
 		return f
+	})
+	harness.RegisterOracle("C06/two-phase", func(l *harness.Live) *harness.Failure {
+		pn, _ := l.Params["prefix"].(string)
+		nn, _ := l.Params["nest"].(string)
+		depth, _ := l.Params["depth"].(float64)
+		if d, ok := l.Params["depth"].(int); ok {
+			depth = float64(d)
+		}
+		if mb, ok := l.Params["max_stack_mb"].(float64); ok && mb > 0 {
+			debug.SetMaxStack(int(mb) << 20)
+		}
+		for _, pre := range twoPhasePrefixes {
+			for _, nst := range twoPhaseNests {
+				if pre.name == pn && nst.name == nn {
+					_, f := checkCompileTotal(pre.build(int(depth), true)+nst.build(int(depth)+250, true), false, nil)
+					return f
+				}
+			}
+		}
+		return harness.Failf("known constructs", pn+"+"+nn, "unknown two-phase construct")
 	})
 	harness.RegisterOracle("C06/mixed", func(l *harness.Live) *harness.Failure {
 		name, _ := l.Params["construct"].(string)
@@ -418,6 +439,73 @@ func TestC06Mixed(t *testing.T) {
 	journal.Close()
 	uC06Mixed.SetExhaustive(total)
 	uC06Mixed.Done(total)
+}
+
+// twoPhase inputs: N completed sibling constructs first, then a construct nested N+250
+// deep. Depth accounting that leaks on every completed construct (a counter
+// decremented twice, never decremented, reset) is invisible to pure nesting and to
+// pure repetition; it needs both phases in one input.
+var twoPhasePrefixes = []deepConstruct{
+	{"steps-in-parens", func(n int, _ bool) string { return "a" + rep("/(b)", n) + "/" }},
+	{"step-sequences", func(n int, _ bool) string { return "a" + rep("/(b,c)", n) + "/" }},
+	{"predicates", func(n int, _ bool) string { return "a" + rep("[b]", n) + "/" }},
+	{"paren-predicates", func(n int, _ bool) string { return "a" + rep("[(b)]", n) + "/" }},
+	{"union-of-groups", func(n int, _ bool) string { return rep("(a)|", n) }},
+	{"or-of-calls", func(n int, _ bool) string { return rep("not(a) or ", n) }},
+	{"sum-of-groups", func(n int, _ bool) string { return rep("(1)+", n) }},
+}
+
+var twoPhaseNests = []deepConstruct{
+	{"paren", nest("(", "a", ")")},
+	{"predicate", nest("a[", "a", "]")},
+	{"call", nest("not(", "a", ")")},
+	{"step-sequence", func(n int, closed bool) string { return "a/" + nest("(", "b", ")")(n, closed) }},
+	{"paren-predicate", nest("(a[", "a", "])")},
+}
+
+func TestC06TwoPhase(t *testing.T) {
+	journal := harness.OpenJournal()
+	depths := []int{50, 1000, 100000}
+	stackMB := 8
+	if harness.Tier() == "thorough" {
+		depths = []int{50, 1000, 100000, 1500000}
+		stackMB = 0
+	}
+	if stackMB > 0 {
+		debug.SetMaxStack(stackMB << 20)
+	}
+	shard, shards := harness.Shard()
+	var total int64
+	idx := 0
+	for _, depth := range depths {
+		for _, pre := range twoPhasePrefixes {
+			for _, nst := range twoPhaseNests {
+				idx++
+				if idx%shards != shard {
+					continue
+				}
+				in := pre.build(depth, true) + nst.build(depth+250, true)
+				l := &harness.Live{Property: "C06", Check: "C06/two-phase", Expr: clip(in),
+					Params: map[string]interface{}{"prefix": pre.name, "nest": nst.name, "depth": depth, "max_stack_mb": float64(stackMB)}}
+				journal.Record(l.Save())
+				acc, f := checkCompileTotal(in, false, nil)
+				if f != nil {
+					harness.Report(t, uC06Two, l, f)
+				}
+				total++
+				res := "rejected"
+				if acc {
+					res = "accepted"
+				}
+				uC06Two.Case(harness.Hash64(pre.name, nst.name, fmt.Sprint(depth)), true, []string{"prefix:" + pre.name, "nest:" + nst.name, fmt.Sprintf("depth:%d", depth), res}, func() interface{} {
+					return map[string]interface{}{"prefix": pre.name, "nest": nst.name, "depth": depth, "input": clip(in), "result": res}
+				})
+			}
+		}
+	}
+	journal.Close()
+	uC06Two.SetExhaustive(total)
+	uC06Two.Done(total)
 }
 
 func TestC06Deep(t *testing.T) {
